@@ -68,9 +68,9 @@ def run(ctx):
                'queries within 1e-12 relative of a table end: inside/outside is a don\'t-care; node queries are made in the table\'s own unit',
                'tables not covering V or not increasing are outside the quantifier')
     ctx.require_events('Extinction.get_av:post', 'pair:chi-scaling', 'pair:units', 'roundtrip:pickle', 'roundtrip:table',
-                       'roundtrip:file', 'refused:non-quantity', 'at-V')
+                       'roundtrip:file', 'refused:non-quantity', 'at-V', 'history:chi-reassigned', 'history:table-replaced')
     ctx.require_regimes('rows=2', 'rows>=100', 'query:outside', 'query:node', 'query:inside')
-    n_tab = 150 if ctx.quick else 1200
+    n_tab = 150 if ctx.quick else 4000
     for it in range(n_tab):
         n = int(rng.choice([2, 3, 4, 8, 25, 100, 200]))
         lw, lc = gen.make_law_arrays(rng, n=n)
@@ -145,6 +145,30 @@ def run(ctx):
         ctx.event('pair:chi-scaling')
         if np.any(np.abs(g2 - base) > 1e-12 * np.abs(base)):
             ctx.violation('get_av:depends-on-opacity-scale', 'multiplying chi by a constant changed the pattern', dict(wit, c=c, before=base, after=g2))
+        # the same object with its table re-assigned (history): the pattern must follow the *current* table
+        # (the post-condition contract evaluates the oracle on the object's table at call time)
+        law_h = Extinction()
+        law_h.wav = tv * unit
+        law_h.chi = chi_native * cunit
+        law_h.get_av(q)
+        law_h.chi = (chi_native * c) * cunit
+        gh = np.asarray(law_h.get_av(q), float)
+        ctx.event('history:chi-reassigned')
+        if np.any(np.abs(gh - base) > 1e-12 * np.abs(base)):
+            ctx.violation('get_av:stale-after-chi-reassigned', 're-assigning chi on an object that was already evaluated gives a pattern that is not that of the new table',
+                          dict(wit, c=c, before=base, after=gh))
+        lw2, lc2 = gen.make_law_arrays(rng, n=int(rng.choice([2, 5, 30])))
+        if lw2[0] < 0.55 < lw2[-1]:
+            law_h.wav = None
+            law_h.chi = None
+            law_h.wav = lw2 * u.micron
+            law_h.chi = lc2 * u.cm ** 2 / u.g
+            q2 = gen.loguniform(rng, lw2[0] * 1.001, lw2[-1] * 0.999, 6) * u.micron
+            gh2 = np.asarray(law_h.get_av(q2), float)
+            ref2 = O.ext_pattern(lw2, lc2, q2.value)
+            ctx.event('history:table-replaced')
+            if np.any(np.abs(gh2 - ref2) > 1e-11 * np.abs(ref2)):
+                ctx.violation('get_av:stale-after-table-replaced', 'replacing the table of an object that was already evaluated gives a stale pattern', dict(wit, got=gh2, expected=ref2))
         # other units for the table
         for un2 in LEN:
             for cn2 in CHI:
